@@ -84,7 +84,7 @@ func initsFor(tier string, primary bool, pl string) []int {
 	case tier == "quick" && pl == "L3ccc" && primary:
 		return []int{0, 2, 3}
 	case tier == "quick" && pl == "L3ccc":
-		return []int{0}
+		return nil // quick: length 3 on the primary configurations only
 	case tier == "quick" && primary:
 		return []int{0, 1, 2, 3, 4, 5, 6}
 	case tier == "quick":
